@@ -42,6 +42,7 @@ py_of = c01.py_of
 SIG_F14 = 'C12:negative-first-bound-sum'
 SIG_REMOVE = 'C12:remove-clear-not-propagated'
 SIG_ZERO = 'C12:signed-zero-bounds'
+SIG_RAISES = 'C12:file-backed-raises'
 SIG_PID = 'C08:gauge-label-named-pid'          # known finding of C08; excluded precondition here (never generated)
 
 
@@ -178,8 +179,14 @@ class Run:
         from prometheus_client.multiprocess import MultiProcessCollector
         from prometheus_client.registry import CollectorRegistry
         case = self.case
+        from prometheus_client import mmap_dict
         old_leg = validation._legacy_validation
+        old_size = mmap_dict._INITIAL_MMAP_SIZE
         validation._legacy_validation = bool(case['legacy'])
+        if case.get('mmap_size'):
+            # a small initial file size: the store crosses its capacity (and doubles) after a few entries, at many
+            # alignments of the new entry against the end of the file
+            mmap_dict._INITIAL_MMAP_SIZE = int(case['mmap_size'])
         try:
             with mpsim.Sim() as sim:
                 mp_cls = sim.new_class(case['pid'])
@@ -223,6 +230,7 @@ class Run:
                         self.collect_err[side] = type(e).__name__
         finally:
             validation._legacy_validation = old_leg
+            mmap_dict._INITIAL_MMAP_SIZE = old_size
         return self
 
 
@@ -294,14 +302,20 @@ def oracle(case, run, stats=None):
     """-> list of (signature, description).  `stats` (dict) counts documented limits seen: values that agree
     numerically but differ in the sign of zero (the collector's `0.0 + value`)"""
     fails = []
+    if run.err[0] is None and run.err[1] is not None:
+        return [(SIG_RAISES, 'a constructor raised %s on the file-backed back-end only' % run.err[1])]
     if run.err[0] != run.err[1]:
         return [('C12:constructor-outcome-differs', 'constructors: in-process %r, file-backed %r' % (run.err[0], run.err[1]))]
     if run.err[0] is not None:
         return []
     for n, (a, b) in enumerate(zip(run.outs[0], run.outs[1])):
         if a != b:
-            fails.append(('C12:call-outcome-differs', 'step %d %r: in-process %s, file-backed %s' % (n, case['ops'][n], a, b)))
+            sig = SIG_RAISES if a == 'ok' else 'C12:call-outcome-differs'
+            fails.append((sig, 'step %d %r: in-process %s, file-backed %s' % (n, case['ops'][n], a, b)))
             break
+    if run.collect_err[1] and not run.collect_err[0]:
+        fails.append((SIG_RAISES, 'MultiProcessCollector.collect() raised %s; the in-process collection returned' % run.collect_err[1]))
+        return fails
     if run.collect_err[0] or run.collect_err[1]:
         fails.append(('C12:collect-raised', 'collect raised: in-process %r, multiprocess %r' % tuple(run.collect_err)))
         return fails
@@ -447,6 +461,26 @@ def make_case(specs, ops, pid=7, legacy=True, rng=None):
         t += (rng.choice([0.0, 0.5, 1.0, 3.25]) if rng else 1.0)
         clock.append(t)
     return {'specs': specs, 'ops': ops, 'pid': pid, 'legacy': legacy, 'clock': clock}
+
+
+def gen_growth_case(rng, mmap_size, children):
+    """many labelled children with label values of varying length in ONE per-type file, so that the store reaches the end
+    of its capacity and grows, the new entry ending at every alignment against the end of the file"""
+    kind = rng.choice(['counter', 'counter', 'gauge', 'summary'])
+    names = rng.choice([['l'], ['l', 'k']])
+    spec = mspec(kind, 'm', names, mode=rng.choice(['all', 'livesum', 'min']), help_text=rng.choice(['doc', '', 'a longer help text']))
+    act = {'counter': 'inc', 'gauge': 'set', 'summary': 'observe'}[kind]
+    pad = rng.randrange(0, 9)
+    ops = []
+    for j in range(children):
+        vals = [S('v%d%s' % (j, 'x' * ((pad + rng.randrange(0, 12)) if mmap_size else pad)))] + [S('w' * rng.randrange(0, 4))] * (len(names) - 1)
+        ops.append(call(0, vals, act, F(float(j % 7))))
+        if rng.random() < 0.1:
+            ops.append(call(0, vals, act, F(1.5)))
+    c = make_case([spec], ops, rng.choice(PIDS), True, rng)
+    if mmap_size:
+        c['mmap_size'] = mmap_size
+    return c
 
 
 def mspec(kind, name='m', labelnames=(), mode='', buckets=None, help_text='doc'):
@@ -754,7 +788,10 @@ def run(ctx):
                 'positionally or by keyword, labels() alone, remove, clear; amounts ordinary, >2^53, tiny, negative, +-Inf, '
                 'NaN, ints, bools, on a bound and next to it) run against BOTH real back-ends and both Lean models; '
                 'every word of length 2 over C01\'s 12-call (two-label) and 9-call (unlabelled) alphabets per type and '
-                'gauge mode; random to length 200, half of the random histories without remove/clear; a case is '
+                'gauge mode; histories with 20-120 labelled children (label values of varying length) under a patched '
+                'mmap_dict._INITIAL_MMAP_SIZE of 256/512 and three with 760+ children at the real 64 KiB, so that the per-type '
+                'file crosses its capacity at many alignments; '
+                'random to length 200, half of the random histories without remove/clear; a case is '
                 'non-trivial when a call was accepted and the in-process collection is non-empty; distinct by '
                 '(declarations, history)')
     rng = ctx.rng
@@ -771,6 +808,14 @@ def run(ctx):
                 b.add(case, 'alphabet')
             b.flush()
     ctx.extra['alphabet_depth'] = 2
+    # the store crossing its capacity: small patched initial size for many alignments, and the real 64 KiB a few times
+    n_grow, n_real = (60, 3) if ctx.tier == 'quick' else (600, 12)
+    for k in range(n_grow):
+        b.add(gen_growth_case(rng, rng.choice([256, 512]), rng.choice([20, 40, 80, 120])), 'growth-patched')
+    b.flush()
+    for k in range(n_real):
+        b.add(gen_growth_case(rng, 0, 760 + 40 * k), 'growth-64KiB')
+        b.flush()
     n_short, n_long = (2500, 80) if ctx.tier == 'quick' else (30000, 1500)
     if ctx.broken:
         n_short, n_long = n_short * 2, n_long * 2
